@@ -413,6 +413,21 @@ func waitResponseLockFacts(fd *ast.FuncDecl) (facts map[string]bool, err error) 
 		return nil, fmt.Errorf("waitResponse: no for loop")
 	}
 	seen := map[string]int{}
+	// several exits may be of one kind (e.g. more than one error exit that gives the connection up): the fact is what
+	// ALL of them do
+	set := func(kind string, v bool) {
+		if seen[kind] > 0 {
+			v = v && facts[kind]
+		}
+		seen[kind]++
+		facts[kind] = v
+	}
+	closes := func(kind string, v bool) {
+		if seen[kind] > 0 {
+			v = v && facts["desyncCloses"]
+		}
+		facts["desyncCloses"] = v
+	}
 	var walk func(list []ast.Stmt) error
 	walk = func(list []ast.Stmt) error {
 		for i, st := range list {
@@ -439,7 +454,7 @@ func waitResponseLockFacts(fd *ast.FuncDecl) (facts map[string]bool, err error) 
 				switch {
 				case containsText(block, "io.ErrNoProgress"):
 					kind = "noProgress"
-					facts["desyncCloses"] = containsText(block, recv+".conn.Close")
+					closes(kind, containsText(block, recv+".conn.Close"))
 				case containsText(block, recv+".conn.Close"):
 					kind = "peekErr"
 				case containsText(block, "&"+recv+".rlock"):
@@ -448,8 +463,7 @@ func waitResponseLockFacts(fd *ast.FuncDecl) (facts map[string]bool, err error) 
 				default:
 					return fmt.Errorf("waitResponse: unclassified break")
 				}
-				seen[kind]++
-				facts[kind] = unlocked
+				set(kind, unlocked)
 			case *ast.ReturnStmt:
 				// an exit that bypasses the code after the loop (c.leave()): classified like a break, `leave` is lost
 				facts["leave"] = false
@@ -462,15 +476,12 @@ func waitResponseLockFacts(fd *ast.FuncDecl) (facts map[string]bool, err error) 
 				}
 				switch {
 				case containsText(block, "io.ErrNoProgress"):
-					seen["noProgress"]++
-					facts["noProgress"] = unlocked
-					facts["desyncCloses"] = containsText(block, recv+".conn.Close")
+					closes("noProgress", containsText(block, recv+".conn.Close"))
+					set("noProgress", unlocked)
 				case containsText(block, recv+".conn.Close"):
-					seen["peekErr"]++
-					facts["peekErr"] = unlocked
+					set("peekErr", unlocked)
 				case containsText(block, "&"+recv+".rlock"):
-					seen["take"]++
-					facts["take"] = !unlocked
+					set("take", !unlocked)
 				default:
 					return fmt.Errorf("waitResponse: unclassified return")
 				}
@@ -482,7 +493,7 @@ func waitResponseLockFacts(fd *ast.FuncDecl) (facts map[string]bool, err error) 
 		return nil, err
 	}
 	for _, k := range []string{"peekErr", "noProgress", "take"} {
-		if seen[k] != 1 {
+		if seen[k] < 1 || (k == "take" && seen[k] != 1) {
 			return nil, fmt.Errorf("waitResponse: %d exits of kind %s", seen[k], k)
 		}
 	}
